@@ -54,11 +54,17 @@ func (r *RMRemoting) BranchRegister(param BranchRegisterParam) (int64, error) {
 		ApplicationData: []byte(param.ApplicationData),
 	}
 	resp, err := getty.GetGettyRemotingClient().SendSyncRequest(request)
-	if err != nil || resp == nil {
-		log.Errorf("BranchRegister error: %v, res %v", err.Error(), resp)
+	if err != nil {
+		log.Errorf("BranchRegister error: %v, res %v", err, resp)
 		return 0, err
 	}
-	branchResp := resp.(message.BranchRegisterResponse)
+	// (a panic here would go through the application's tx.Commit, which database/sql has marked done by then:
+	// the local transaction and its connection would stay open for good)
+	branchResp, ok := resp.(message.BranchRegisterResponse)
+	if !ok {
+		log.Errorf("BranchRegister answered with a message of another type, res %v", resp)
+		return 0, fmt.Errorf("branch register of %s answered with a message of another type: %T", param.Xid, resp)
+	}
 	if branchResp.ResultCode == message.ResultCodeFailed {
 		return 0, fmt.Errorf("Response %s", branchResp.Msg)
 	}
